@@ -27,6 +27,7 @@ def load_contracts(props=None):
             mods.update(ms)
     for m in sorted(mods):
         importlib.import_module("contracts." + m)
+    importlib.import_module("contracts.canary")
 
 
 def main(argv):
